@@ -93,9 +93,18 @@ Theorem C31_invalid_coding_refuted :
 Proof. exact invalid_coding_refuted. Qed.
 Print Assumptions C31_invalid_coding_refuted.
 
+(* Message.encode with a str codec: TypeError, and the new Content-Encoding header stays on the
+   unchanged body (the message now claims a coding it does not have). Code as it stands. *)
+Theorem C31_message_encode_typeerror_refuted :
+  exists (C : codecs) (m : msg),
+    msg_encode C false None m s_utf8 = (RaisedTypeError, Build_msg (Some s_utf8) (m_te m) (m_cl m) (m_raw m), None)
+    /\ m_ce m = None.
+Proof. exact msg_encode_typeerror_refuted. Qed.
+Print Assumptions C31_message_encode_typeerror_refuted.
+
 (* Message.decode followed (after any other calls) by Message.encode with a supported coding
-   preserves the content; cache states st0 st1 st2 are arbitrary reachable ones (Inv holds after
-   every history: C31_inv_run). Non-empty body, any original coding whose strict read succeeded. *)
+   preserves the content; h0 .. h3 are arbitrary histories before the read, the decode, the encode
+   and the final read. Non-empty body, any original coding whose strict read succeeded. *)
 Theorem C31_decode_encode_preserves :
   forall (C : codecs) (lenient : bool) (h0 h1 h2 h3 : list call) (m : msg) (c : bytes) (s s3 : bool) (n : bytes)
          (b0 : byte) (r0 : bytes) o1 m1 st1' o2 m2 st2',
